@@ -225,7 +225,8 @@ def is_type_key(k):
 @st.composite
 def strat_types(draw, tier="quick"):
     keys = draw(st.lists(st.sampled_from(TYPE_KEYS + NON_TYPE), min_size=0, max_size=6, unique=True))
-    q = {k: draw(st.lists(st.sampled_from(["promoter", "enhancer", "CDS", "repeat", "x y", ""]), min_size=1, max_size=3)) for k in keys}
+    # (values that differ only in capitalisation - "promoter" / "Promoter", a case variant of the primary type - are different values)
+    q = {k: draw(st.lists(st.sampled_from(["promoter", "enhancer", "CDS", "repeat", "x y", "", "Promoter", "cds", "Regulatory", "Misc_feature"]), min_size=1, max_size=3)) for k in keys}
     order = list(draw(st.permutations(keys)))
     a = draw(st.dictionaries(st.sampled_from(["note", "color", "k1", "k2", "db_xref"]), st.lists(st.sampled_from(["b", "a", "c", "A", "10", "9"]), min_size=1, max_size=4), max_size=4))
     b = draw(st.dictionaries(st.sampled_from(["note", "color", "k1", "k3", "db_xref"]), st.lists(st.sampled_from(["b", "a", "d", "A", "10", "9"]), min_size=1, max_size=4), max_size=4))
@@ -243,6 +244,8 @@ def check_types_merge(spec, ctx):
             exp.update(v)
             ctx.label("type_key_present")
     ctx.eq("feature_types", sorted(types), sorted(exp))
+    if len({x.lower() for x in exp}) < len(exp):
+        ctx.label("type_values_differing_in_case_only")
     # order independence
     types2 = {spec["base"]}
     extract_feature_types(types2, {k: spec["q"][k] for k in sorted(spec["q"])})
@@ -549,7 +552,7 @@ PROP = Prop(
             rule="GFF3 gene rows carrying every subset of the symbol keys (gene_name > gene_symbol > gene > Name) in every attribute order x every order of the biotype keys (gene_biotype > gene_type) x gene_id written before / after ID or absent, parsed by parse_standard_gff3: symbol, biotype and id must follow the documented priority whatever the attribute order"),
         Leg("note_fallback", check_name_id, enumerate=enum_note, exhaustive=True, shards_quick=1, shards_thorough=1, must_hit=["note_fallback"],
             rule="no recognised key present: name and id fall back to the first word of /note"),
-        Leg("types_merge", check_types_merge, strategy=strat_types, n_quick=1500, n_thorough=15000, must_hit=["type_key_present", "shared_keys"],
+        Leg("types_merge", check_types_merge, strategy=strat_types, n_quick=1500, n_thorough=15000, must_hit=["type_key_present", "shared_keys", "type_values_differing_in_case_only"],
             rule="type-like qualifier keys (*_class, gbkey, *_type; mixed case; substrings) and near misses; pairs of qualifier dictionaries for merge_qualifiers"),
         Leg("genbank_feature_merge", check_genbank_feature_merge, strategy=strat_gb_feature_merge, n_quick=150, n_thorough=2000, shards_quick=4,
             must_hit=["features_sharing_a_locus_tag", "values_differing_by_surrounding_blanks"],
